@@ -32,7 +32,8 @@ RULE = ('conversion: base model (AUTOUGH2 for ->TOUGH2, TOUGH2 for ->AUTOUGH2) p
         'atomic deviations (k = 1 quick, 2 thorough), deviations = each section toggled, one more generator of each '
         'of the 36 types in 3 placements (new name / duplicate (block,name) after / before the original), every MOP '
         'position 1..24 x digit 0..9, MP, simulator family x EOS suffix, every SHORT subset x frequency, every '
-        'LINEQ with a blank type, read-from-file origin with an extra-precision side file (all sections / echoed / '
+        'read-from-file origin with 5 other legal section orders (MULTI/PARAM/START/RPCAP/TIMES/INCON/GENER/LINEQ/'
+        'SOLVR ahead of ROCKS), LINEQ with a blank type, read-from-file origin with an extra-precision side file (all sections / echoed / '
         'ROCKS only / ROCKS+ELEME+CONNE), history representation (absent/objects/bare names)^3, 7 GOFT lists (block with three generators, block '
         'requested twice, requested blocks without generator, every block), solver types, file names, read-from-file origin, '
         'type-setter route; in pairs a MOP deviation is taken only from the positions the converters treat '
@@ -562,6 +563,16 @@ def build(direction, atoms):
         with quiet():
             if meta['origin'] == 'file':
                 dat.write(path)
+            elif meta['origin'] in ORDER_ORIGINS:
+                # a data file whose sections are in another (legal) order than the writer's
+                dat.write(path)
+                with open(path) as f:
+                    text = f.read()
+                text2 = cm.lift_sections(text, ORDER_ORIGINS[meta['origin']])
+                if sorted(text2.split('\n')) != sorted(text.split('\n')):
+                    raise core.HarnessError('section reordering lost or invented lines')
+                with open(path, 'w') as f:
+                    f.write(text2)
             else:
                 # AUTOUGH2 extra-precision side file (.pdat), sections echoed in the main file or not
                 xp, echo = XP_ORIGINS[meta['origin']]
@@ -571,6 +582,11 @@ def build(direction, atoms):
     return dat, meta
 
 
+ORDER_ORIGINS = {'file-order-multi-param-start': ['MULTI', 'PARAM', 'START'],
+                 'file-order-param': ['PARAM'],
+                 'file-order-rpcap-start-param-multi': ['RPCAP', 'START', 'PARAM', 'MULTI'],
+                 'file-order-times-incon-gener': ['TIMES', 'INCON', 'GENER'],
+                 'file-order-lineq-solvr-multi': ['LINEQ', 'SOLVR', 'MULTI']}
 XP_ORIGINS = {'file-xp': (True, False), 'file-xp-echo': (True, True), 'file-xp-rocks': (['ROCKS'], False),
               'file-xp-mesh': (['ROCKS', 'ELEME', 'CONNE'], False)}
 
@@ -648,6 +664,8 @@ def atoms_for(direction):
     out.append(('mp',))
     out.append(('route', 'setter'))
     out.append(('origin', 'file'))
+    for o in sorted(ORDER_ORIGINS):
+        out.append(('origin', o))
     return out
 
 
@@ -1047,14 +1065,19 @@ def conv_case(direction, atoms, keep=None):
     dat, meta = build(direction, atoms)
     site = site_name(direction, meta)
 
-    osfx = '|origin=extra-precision-files' if meta['origin'] in XP_ORIGINS else ''
+    osfx = '|origin=extra-precision-files' if meta['origin'] in XP_ORIGINS else \
+        '|origin=file-with-sections-reordered' if meta['origin'] in ORDER_ORIGINS else ''
 
     def V(clause, cls, what):
-        sig = 'C20|%s|%s|%s%s' % (site, clause, cls, osfx)
+        # an exception is attributed to the smallest deviation that raises it (exc_class), not to the origin
+        sfx = '' if clause.startswith('raises:') and not cls.startswith('origin') else osfx
+        sig = 'C20|%s|%s|%s%s' % (site, clause, cls, sfx)
         if sig not in [s for s, w in out]:
             out.append((sig, what + (' [via the type setter]' if meta['route'] == 'setter' else '')
                         + (' [model read from files written with extra_precision=%r, echo_extra_precision=%r]'
-                           % XP_ORIGINS[meta['origin']] if osfx else '')))
+                           % XP_ORIGINS[meta['origin']] if meta['origin'] in XP_ORIGINS else '')
+                        + (' [model read from a file with sections %r ahead of ROCKS]'
+                           % (ORDER_ORIGINS[meta['origin']],) if meta['origin'] in ORDER_ORIGINS else '')))
     pre = canon(dat)
     memo = {}
 
@@ -1121,7 +1144,7 @@ def conv_case(direction, atoms, keep=None):
             counters['rt_field_skipped_%s' % f] = counters.get('rt_field_skipped_%s' % f, 0) + 1
             continue
         ncmp += 1
-        if osfx and f in ('rocks', 'blocks', 'connections', 'rpcap', 'gens', 'lookupkeys'):
+        if meta['origin'] in XP_ORIGINS and f in ('rocks', 'blocks', 'connections', 'rpcap', 'gens', 'lookupkeys'):
             V('roundtrip', 'extra-precision-sections', 'converted model does not survive write -> read in %s (a section '
               'that came from the extra-precision file): written from %s, read back %s' % (f, brief(v0[f]), brief(v1[f])))
             continue
